@@ -139,7 +139,14 @@ def show_list(l):
 # ----------------------------------------------------------------------------------------------
 # running the real code
 # ----------------------------------------------------------------------------------------------
-def run_mcmc(n, b, t, seed=0, n_chains=1, idx=0, progress=False, np_int=False, prestep=0):
+def run_mcmc(n, b, t, seed=0, n_chains=1, idx=0, progress=False, np_int=False, prestep=0, verbose=False):
+    if verbose:
+        with common.verbose_logging():
+            return run_mcmc(n, b, t, seed, n_chains, idx, progress, np_int, prestep, False)
+    return _run_mcmc(n, b, t, seed, n_chains, idx, progress, np_int, prestep)
+
+
+def _run_mcmc(n, b, t, seed=0, n_chains=1, idx=0, progress=False, np_int=False, prestep=0):
     """real sample() on the counting stub; returns a dict of observables (progress: with progress_bar=True, tqdm output discarded)"""
     import contextlib
     import io
@@ -203,7 +210,14 @@ def other_process_draws(triples, hashseed="4242"):
         return None, pr.stderr[-300:]
 
 
-def run_vi(seed, n, returned=None):
+def run_vi(seed, n, returned=None, verbose=False):
+    if verbose:
+        with common.verbose_logging():
+            return _run_vi(seed, n, returned)
+    return _run_vi(seed, n, returned)
+
+
+def _run_vi(seed, n, returned=None):
     from batchie.sampling import sample
     _State, _M, CountingVI, Holder = _stubs()
     trace = []
@@ -275,6 +289,164 @@ def _real_setup():
     return _REAL
 
 
+CLI = {"trace": [], "first_rng": None, "preset": False, "instances": 0}
+
+
+def install_cli_model():
+    """the model class `train_model.main()` finds by introspection: the real SparseDrugCombo, recording reset / set_rng / step and a
+    COPY of the generator it holds when its first step begins (= what sample() handed over, unless set_rng was skipped)."""
+    import copy
+    import batchie.models.sparse_combo as mod
+    from batchie.data import ExperimentSpace
+    if getattr(mod, "VerifRecCombo", None) is None:
+        class VerifRecCombo(mod.SparseDrugCombo):
+            def __init__(self, experiment_space: ExperimentSpace, n_embedding_dimensions: int):
+                CLI["instances"] += 1
+                super().__init__(experiment_space=experiment_space, n_embedding_dimensions=n_embedding_dimensions,
+                                 rng=(np.random.default_rng(123) if CLI["preset"] else None))
+
+            def reset_model(self):
+                CLI["trace"].append(2)
+                super().reset_model()
+
+            def set_rng(self, rng):
+                CLI["trace"].append(3)
+                super().set_rng(rng)
+
+            def step(self):
+                if 0 not in CLI["trace"]:
+                    CLI["first_rng"] = copy.deepcopy(self.rng)      # state is copied; the seed sequence is read from the original
+                    try:
+                        ss_ = seed_seq_of(self.rng)
+                        CLI["first_ss"] = (int(ss_.entropy), [int(x) for x in ss_.spawn_key])
+                    except Exception:  # noqa
+                        CLI["first_ss"] = (None, None)
+                CLI["trace"].append(0)
+                super().step()
+        mod.VerifRecCombo = VerifRecCombo
+
+
+def cli_screen(tmp, partial):
+    """the screen file given to train_model: observed rows (the training data) and, when `partial`, an unobserved plate as well"""
+    import os
+    from batchie.data import Screen
+    sn = ["s0", "s0", "s0", "s1", "s1", "s1", "s0", "s1", "s1", "s0"]
+    tn = [["a", "b"], ["a", "c"], ["b", "c"], ["a", "b"], ["a", "c"], ["b", "c"], ["a", ""], ["b", ""], ["c", "a"], ["c", "b"]]
+    td = [[1., 1.], [1., 2.], [1., 2.], [1., 1.], [1., 2.], [1., 2.], [1., 0.], [1., 0.], [2., 1.], [2., 2.]]
+    mask = np.array([True] * 8 + [not partial] * 2)
+    obs = np.where(mask, np.array([.1, .2, .3, .4, .5, .6, .7, .8, .35, .45]), 0.0)
+    scr = Screen(treatment_names=np.array(tn, dtype=str), treatment_doses=np.array(td), sample_names=np.array(sn, dtype=str),
+                 plate_names=np.array(["p0"] * 8 + ["p1"] * 2, dtype=str), observations=obs, observation_mask=mask)
+    fn = os.path.join(tmp, "train_screen.h5")
+    scr.save_h5(fn)
+    return fn
+
+
+def run_train_cli(case, tmp):
+    """class entry-point: batchie.cli.train_model.main() with --seed / --n-chains / --chain-index / --n-burnin / --thin / --n-samples.
+    Returns observables: trace (2 reset, 3 set_rng, 0 step), first draws of a copy of the generator held at the first step, the
+    thetas in the output file, and the states of a twin driven by hand (same class, same data, reset, that generator, b + n*t steps)."""
+    import contextlib
+    import copy
+    import io
+    import os
+    from batchie.cli import train_model as tm
+    from batchie.core import ThetaHolder
+    from batchie.data import Screen, ExperimentSpace
+    from batchie.models.sparse_combo import SparseDrugCombo
+    from harness.c07 import quiet_cli
+    install_cli_model()
+    data_fn = cli_screen(tmp, case.get("partial", False))
+    out_fn = os.path.join(tmp, "thetas_out.h5")
+    if os.path.exists(out_fn):
+        os.unlink(out_fn)
+    n, b, t = case["n"], case["b"], case["t"]
+    argv = ["train_model", "--data", data_fn, "--model", "VerifRecCombo", "--model-param", "n_embedding_dimensions=2", "--output", out_fn,
+            "--n-samples", str(n), "--n-burnin", str(b), "--thin", str(t), "--n-chains", str(case["n_chains"]), "--chain-index", str(case["idx"])]
+    if not (case.get("omit_default_seed") and case["seed"] == 0):
+        argv += ["--seed", str(case["seed"])]
+    if case.get("verbose"):
+        argv.append("--verbose")
+    if case.get("progress"):
+        argv.append("--progress")
+    CLI["trace"], CLI["first_rng"], CLI["preset"] = [], None, bool(case.get("preset"))
+    o = {"error": None}
+    try:
+        with quiet_cli(argv), contextlib.redirect_stdout(io.StringIO()), contextlib.redirect_stderr(io.StringIO()):
+            tm.main()
+    except BaseException as e:  # noqa
+        o["error"] = "%s: %s" % (type(e).__name__, e)
+        return o
+    o["trace"] = list(CLI["trace"])
+    g = CLI["first_rng"]
+    o["has_rng"] = g is not None
+    if g is not None:
+        o["entropy"], o["key"] = CLI.get("first_ss", (None, None))
+        o["draws"] = [int(x) for x in copy.deepcopy(g).integers(0, 2 ** 63, K_DRAWS)]
+    with contextlib.redirect_stdout(io.StringIO()):
+        holder = ThetaHolder.load_h5(out_fn)
+        data = Screen.load_h5(data_fn)
+    o["file_states"] = [theta_sig(holder.get_theta(i)) for i in range(holder.n_thetas)] if holder.is_complete else None
+    o["file_n"] = int(holder.n_thetas)
+    if g is not None:
+        twin = SparseDrugCombo(experiment_space=ExperimentSpace.from_screen(data), n_embedding_dimensions=2)
+        sub = data.subset_observed()
+        if sub is not None:
+            twin.add_observations(sub)
+        twin.reset_model()
+        twin.set_rng(copy.deepcopy(g))
+        want = []
+        for _ in range(b):
+            twin.step()
+        for i in range(n * t):
+            twin.step()
+            if (i + 1) % t == 0:
+                want.append(theta_sig(twin.get_model_state()))
+        o["want_states"] = want
+    os.unlink(out_fn)
+    return o
+
+
+def oracle_train_cli(res, case, o, earlier):
+    """the property's clauses through the real entry point; `earlier` = observations of earlier CLI runs of this process by triple"""
+    n, b, t = case["n"], case["b"], case["t"]
+    if o["error"]:
+        res.fail("train_model.main() raises on a valid schedule / triple", case, o["error"], "thetas written", signature="C17:cli-raises")
+        return
+    r_at, s_at, steps, _pos = trace_positions(o["trace"])
+    if r_at is None or (s_at is not None and (r_at > s_at or 2 in o["trace"][s_at:])):
+        res.fail("train_model: the model is not reset before its first step", case, o["trace"][:8], [2, 3, 0], signature="C17:reset-order")
+        return
+    if steps != b + n * t:
+        res.fail("train_model: model not advanced exactly b + n*t steps", case, steps, b + n * t, signature="C17:total-steps")
+        return
+    if not o["has_rng"] and steps:
+        res.fail("train_model: the model holds no generator when it starts stepping", case, None, "a generator", signature="C17:rng-missing")
+        return
+    if o["file_states"] is None or o["file_n"] != n:
+        res.fail("train_model: the written collection is not complete", case, {"n_thetas": o["file_n"]}, n, signature="C17:holder-incomplete")
+        return
+    if steps and o["file_states"] != o.get("want_states"):
+        res.fail("train_model: the thetas in the output file are not the states after steps b+t, ..., b+n*t of a reset model driven by the generator it was handed",
+                 case, {"equal_states": sum(1 for a_, b_ in zip(o["file_states"], o.get("want_states") or []) if a_ == b_)}, n, signature="C17:record-positions")
+        return
+    if not steps:
+        return
+    key = (case["seed"], case["n_chains"], case["idx"])
+    if o.get("entropy") != case["seed"] or o.get("key") != [case["idx"]]:
+        res.disagree("C17:cli-rng-derivation", {"case": case}, {"entropy": o.get("entropy"), "spawn_key": o.get("key")}, {"entropy": case["seed"], "spawn_key": [case["idx"]]})
+    for key2, dr in earlier:
+        if key2 == key and dr != o["draws"]:
+            res.fail("same (seed, n_chains, chain_index) gives different generators", dict(case, earlier=list(key2)), [dr[:3], o["draws"][:3]], "identical streams",
+                     signature="C17:rng-not-deterministic")
+            return
+        if key2[:2] == key[:2] and key2[2] != key[2] and set(dr) & set(o["draws"]):
+            res.fail("different chains / seeds share generator output", dict(case, earlier=list(key2)), [dr[:3], o["draws"][:3]], "non-overlapping streams",
+                     signature="C17:rng-shared-stream")
+            return
+    earlier.append((key, o["draws"]))
+
+
 def theta_sig(t):
     return [repr(float(t.precision)), repr(float(t.alpha))] + [getattr(t, k).tobytes().hex() for k in ("W0", "V0", "W", "V2", "V1")]
 
@@ -287,6 +459,13 @@ def gen_state(rng):
 
 
 def run_calls(case):
+    if case.get("verbose"):
+        with common.verbose_logging():
+            return _run_calls(case)
+    return _run_calls(case)
+
+
+def _run_calls(case):
     """case: {"model": "stub"|"real", "preset": bool, "fresh_each": bool, "calls": [[seed, n_chains, idx], ...], "n","b","t"}
     Runs the real sample() once per call, on ONE model object (fresh_each False) or on a new model per call, all in this process.
     Returns one observation dict per call."""
@@ -426,6 +605,19 @@ def oracle_calls(res, case, obs):
 # ----------------------------------------------------------------------------------------------
 # oracles (implementation only)
 # ----------------------------------------------------------------------------------------------
+def verbose_vs_plain(res, case, o):
+    """a run under verbose logging must hand the model the stream the plain run hands it (identical triple => identical stream)"""
+    o_plain = run_mcmc(case["n"], case["b"], case["t"], progress=bool(case.get("progress")), prestep=int(case.get("prestep", 0)),
+                       np_int=bool(case.get("np_int")))
+    if not o["error"] and not o_plain["error"]:
+        da, db = o["draws"], o_plain["draws"]
+        if not da and o.get("rng") is not None and o_plain.get("rng") is not None:      # no step was made: look at the generators themselves
+            da, db = [int(x) for x in o["rng"].integers(0, 2 ** 63, 3)], [int(x) for x in o_plain["rng"].integers(0, 2 ** 63, 3)]
+        if da != db or o["recorded_draws"] != o_plain["recorded_draws"]:
+            res.fail("same (seed, n_chains, chain_index) gives different generators", case, [da[:3], db[:3]],
+                     "the run under verbose logging draws what the plain run draws", signature="C17:rng-not-deterministic")
+
+
 def oracle_schedule(res, case, o):
     n, b, t = case["n"], case["b"], case["t"]
     if o["error"]:
@@ -539,8 +731,12 @@ def run(ctx, res):
     # ---------- A. schedule ------------------------------------------------------------------
     bmax, tmax, nmax = ctx.scale((6, 4, 5), (20, 8, 10), (10, 6, 7))
     for b, t, n in itertools.product(range(bmax + 1), range(1, tmax + 1), range(nmax + 1)):
-        case = {"kind": "schedule", "n": n, "b": b, "t": t}
-        o = run_mcmc(n, b, t)
+        vb = (b + 2 * t + 3 * n) % 6 == 0 or (b, t, n) in ((0, 1, 0), (0, 1, 1), (1, 2, 1))
+        case = {"kind": "schedule", "n": n, "b": b, "t": t, "verbose": vb}
+        o = run_mcmc(n, b, t, verbose=vb)
+        if vb:
+            res.count("class.verbose-logging")
+            verbose_vs_plain(res, case, o)
         res.evaluations += 1
         oracle_schedule(res, case, o)
         if b >= 1 and t >= 2 and n >= 2:
@@ -644,7 +840,10 @@ def run(ctx, res):
             crng.shuffle(seq)
             call_cases.append({"kind": "calls", "model": mdl, "preset": crng.random() < 0.5, "fresh_each": crng.random() < 0.6,
                                "n": crng.choice([1, 2]), "b": crng.choice([0, 1, 3]), "t": crng.choice([1, 2]), "calls": seq})
-    for case in call_cases:
+    for ci, case in enumerate(call_cases):
+        if ci % 4 == 1:
+            case["verbose"] = True
+            res.count("class.verbose-logging")
         obs_c = run_calls(case)
         res.evaluations += len(obs_c)
         res.count("calls.%s.%s.%s" % (case["model"], "preset" if case["preset"] else "norng", "fresh" if case["fresh_each"] else "reused"), len(obs_c))
@@ -668,6 +867,50 @@ def run(ctx, res):
                 expect.append("%d %s" % (o["entropy"], show_list(o["key"])))
                 meta.append({"kind": "calls-rng", "case": case, "call": j})
     res.sample({"kind": "calls", "model": "real", "preset": True, "fresh_each": False, "calls": call_cases[4]["calls"]})
+
+    # ---------- A3. class entry-point: train_model.main() (argv, files); what the model is handed and what is written -----------
+    import shutil
+    import tempfile
+    tmpd = tempfile.mkdtemp(prefix="c17_")
+    try:
+        earlier = []
+        cli_cases = []
+        for preset in (False, True):
+            # seed 0 (given, and left to the default), chain 0, burn-in 0, burn-in not a multiple of thin; each family twice
+            cli_cases += [
+                {"seed": 0, "n_chains": 2, "idx": 0, "n": 2, "b": 1, "t": 2, "preset": preset},
+                {"seed": 0, "n_chains": 2, "idx": 1, "n": 2, "b": 1, "t": 2, "preset": preset, "verbose": True},
+                {"seed": 0, "n_chains": 2, "idx": 0, "n": 2, "b": 1, "t": 2, "preset": preset, "omit_default_seed": True, "partial": True},
+                {"seed": 5, "n_chains": 3, "idx": 2, "n": 1, "b": 0, "t": 3, "preset": preset, "progress": preset},
+                {"seed": 5, "n_chains": 3, "idx": 0, "n": 3, "b": 3, "t": 2, "preset": preset, "verbose": preset},
+            ]
+        for j in range(ctx.scale(0, 12)):
+            nc = crng.choice([1, 2, 4])
+            cli_cases.append({"seed": crng.choice([0, 1, sd[5]]), "n_chains": nc, "idx": crng.randrange(nc), "n": crng.choice([1, 2]), "b": crng.choice([0, 1, 3]),
+                              "t": crng.choice([1, 2]), "preset": crng.random() < 0.5, "verbose": crng.random() < 0.3})
+        for c_ in cli_cases:
+            case = dict(c_, kind="train_cli")
+            o = run_train_cli(case, tmpd)
+            # NOTE: (0,2,0) with and without `partial` train on the same observed rows, so the streams AND states must coincide
+            oracle_train_cli(res, case, o, earlier)
+            if case.get("verbose") and not o.get("error"):
+                # the same input without --verbose: same stream, same file (compared through `earlier`: identical triple)
+                oracle_train_cli(res, case, run_train_cli(dict(case, verbose=False), tmpd), earlier)
+                oracle_train_cli(res, case, run_train_cli(case, tmpd), earlier)
+            res.evaluations += 1
+            res.count("class.entry-point.train_model")
+            if case.get("verbose"):
+                res.count("class.verbose-logging")
+            if case["seed"] == 0 or case["idx"] == 0:
+                res.count("class.falsy-boundaries")
+            res.nontrivial.add(("train_cli", case["seed"], case["n_chains"], case["idx"], bool(case.get("preset"))))
+            if not o.get("error"):
+                if o.get("entropy") is not None:
+                    lines.append("chainrng %d %d %d" % (case["seed"], case["n_chains"], case["idx"]))
+                    expect.append("%d %s" % (o["entropy"], show_list(o["key"])))
+                    meta.append(dict(case, kind="train-cli-rng"))
+    finally:
+        shutil.rmtree(tmpd, ignore_errors=True)
 
     # ---------- B. generator -----------------------------------------------------------------
     seeds = seeds_for(ctx)
@@ -764,8 +1007,10 @@ def run(ctx, res):
     # ---------- C. VI branch -----------------------------------------------------------------
     for seed in seeds[:ctx.scale(6, 30)]:
         for n in range(0, ctx.scale(5, 9)):
-            case = {"kind": "vi", "seed": seed, "n": n}
-            o = run_vi(seed, n)
+            case = {"kind": "vi", "seed": seed, "n": n, "verbose": (n % 3 == 0)}
+            o = run_vi(seed, n, verbose=case["verbose"])
+            if case["verbose"]:
+                res.count("class.verbose-logging")
             res.evaluations += 1
             res.count("vi")
             oracle_vi(res, case, o)
@@ -844,14 +1089,17 @@ def show_trace(tr):
 
 def replay(ctx, case, res):
     k = case.get("kind")
+    if k == "schedule" and case.get("verbose"):
+        verbose_vs_plain(res, case, run_mcmc(case["n"], case["b"], case["t"], progress=bool(case.get("progress")),
+                                             prestep=int(case.get("prestep", 0)), np_int=bool(case.get("np_int")), verbose=True))
     if k == "schedule":
         # several times in a row on fresh temporaries (and another schedule in between): state keyed by object identity shows on a later one
         for _ in range(12):
             oracle_schedule(res, case, run_mcmc(case["n"], case["b"], case["t"], progress=bool(case.get("progress")),
-                                                prestep=int(case.get("prestep", 0)), np_int=bool(case.get("np_int"))))
+                                                prestep=int(case.get("prestep", 0)), np_int=bool(case.get("np_int")), verbose=bool(case.get("verbose"))))
             run_mcmc(1, 1, 1)
         oracle_schedule(res, case, run_mcmc(case["n"], case["b"], case["t"], progress=bool(case.get("progress")),
-                                            prestep=int(case.get("prestep", 0)), np_int=bool(case.get("np_int"))))
+                                            prestep=int(case.get("prestep", 0)), np_int=bool(case.get("np_int")), verbose=bool(case.get("verbose"))))
     elif k == "rng":
         # twice in one process: a stream that depends on earlier calls shows on the second
         t3 = (case["seed"], case["n_chains"], case["idx"])
@@ -861,6 +1109,19 @@ def replay(ctx, case, res):
         if d1.get("draws") != d2.get("draws") or (other is not None and other[0] != d1.get("draws")):
             res.fail("same (seed, n_chains, chain_index) gives different generators", case, [d1.get("draws", [])[:3], d2.get("draws", [])[:3], (other or [None])[0]],
                      "identical streams in this process and in another one", signature="C17:rng-not-deterministic")
+    elif k == "train_cli":
+        import shutil
+        import tempfile
+        tmpd = tempfile.mkdtemp(prefix="c17r_")
+        try:
+            earlier = []
+            for cc in (case.get("earlier"),):
+                if cc:      # the earlier run it was compared with
+                    oracle_train_cli(res, dict(case, seed=cc[0], n_chains=cc[1], idx=cc[2]), run_train_cli(dict(case, seed=cc[0], n_chains=cc[1], idx=cc[2]), tmpd), earlier)
+            oracle_train_cli(res, case, run_train_cli(case, tmpd), earlier)
+            oracle_train_cli(res, case, run_train_cli(case, tmpd), earlier)
+        finally:
+            shutil.rmtree(tmpd, ignore_errors=True)
     elif k == "calls":
         oracle_calls(res, case, run_calls(case))
     elif k == "rng_pair":
@@ -868,9 +1129,9 @@ def replay(ctx, case, res):
             oracle_rng_pair(res, case, rng_observe(case["seed_a"], case["n_a"], case["i_a"]), rng_observe(case["seed_b"], case["n_b"], case["i_b"]))
     elif k == "vi":
         # twice in one process, and once more after an MCMC call with the same seed: a generator that depends on earlier calls shows
-        oracle_vi(res, case, run_vi(case["seed"], case["n"]))
-        oracle_vi(res, case, run_vi(case["seed"], case["n"]))
+        oracle_vi(res, case, run_vi(case["seed"], case["n"], verbose=bool(case.get("verbose"))))
+        oracle_vi(res, case, run_vi(case["seed"], case["n"], verbose=bool(case.get("verbose"))))
         rng_observe(case["seed"], 2, 1)
-        oracle_vi(res, case, run_vi(case["seed"], case["n"]))
+        oracle_vi(res, case, run_vi(case["seed"], case["n"], verbose=bool(case.get("verbose"))))
     else:
         run(ctx, res)
